@@ -8,6 +8,7 @@
 import CdiProofs.Props.C06
 import CdiProofs.Props.C07
 import CdiModel.Decode
+import CdiProofs.Lemmas.Tables
 namespace Cdi.Validate
 open Cdi Cdi.SpecWF Cdi.Parser
 
@@ -260,6 +261,19 @@ example : validateSpec oneLetterKind = .ok true := by decide
 /-- a malformed annotation key was accepted by the pinned tree -/
 example : validateSpecPinned { oneLetterKind with kind := lit "v.com/cls", version := lit "0.6.0", annotations := [(lit "bad key!", lit "x")] } = .ok true := by decide
 example : validateSpec { oneLetterKind with kind := lit "v.com/cls", version := lit "0.6.0", annotations := [(lit "bad key!", lit "x")] } = .ok false := by decide
+
+/-! ### T2 / T3 — device-node types and permission characters, tied to the code by execution
+
+`Generated.deviceTypesAccepted` lists every string of at most two bytes (all 65 793 of them were tried) that
+`DeviceNode.Validate` of the working tree accepts as a type; `Generated.permissionBytes` the bytes it accepts
+inside `permissions` (alone, after `r`, before `m`).  Independent of how the validator is written. -/
+
+theorem T2_device_types_executed :
+    sameSet Generated.deviceTypesAccepted (specDeviceTypes.filter (fun t => decide (t.length ≤ 2))) = true := by decide
+
+set_option maxRecDepth 100000 in
+theorem T3_permission_bytes : ∀ n, n < 256 → isPermByte n.toUInt8 = inRanges Generated.permissionBytes n := by
+  decide +kernel
 
 /-! ### Non-vacuity -/
 example : WellFormed { oneLetterKind with version := lit "0.7.0", edits := { intelRdt := some { closID := lit "cls" }, additionalGids := [1, 2] } } = true := by decide
